@@ -187,11 +187,12 @@ class World:
         return o
 
     def snapshot(self, user, paths, note=None, **kw):
-        return self.command(user, lambda r: r.snapshot(paths=[Path(p) for p in paths], note=note, rate_limit=kw.pop('rate_limit', None)), **kw)
+        rl = kw.pop('rate_limit', None)
+        return self.command(user, lambda r: r.snapshot(paths=[Path(p) for p in paths], note=note, rate_limit=rl), **kw)
 
     def restore(self, user, target, snapshot_regex=None, file_regex=None, **kw):
-        return self.command(user, lambda r: r.restore(path=Path(target), snapshot_regex=snapshot_regex, file_regex=file_regex,
-                                                      rate_limit=kw.pop('rate_limit', None)), **kw)
+        rl = kw.pop('rate_limit', None)
+        return self.command(user, lambda r: r.restore(path=Path(target), snapshot_regex=snapshot_regex, file_regex=file_regex, rate_limit=rl), **kw)
 
     def delete(self, user, names, **kw):
         return self.command(user, lambda r: r.delete_snapshots(list(names), confirm=False), **kw)
